@@ -72,6 +72,34 @@ fn c10_history(cfg_id: u8, window: usize, arrivals: usize) {
     std::mem::forget(w);
 }
 
+/// C10/C11 (added after seed C11c): the same exact-sum oracle OFF the whole-second grid. Every gap is a symbolic number of
+/// whole seconds plus a concrete half second, so the sub-second part of every retained interval must reach the window
+/// (`as_secs_f64`, not a truncated or rounded value); halves are exact in f64, so the comparison is exact.
+fn c10_history_half(cfg_id: u8, window: usize, arrivals: usize) {
+    let cfg = fixed_config(cfg_id, window);
+    let mut w = SamplingWindow::new(window, cfg.max_interval, cfg.initial_interval);
+    vtime::set_now(vtime::Instant { secs: 1_000, nanos: 0 });
+    let mut kept = 0;
+    let mut ring = [0u64; 4]; // retained intervals in half seconds
+    let mut i = 0;
+    while i < arrivals {
+        if i > 0 {
+            let gap = any_s(2 * cfg.max_interval.as_secs()) + Duration::from_millis(500);
+            if gap > cfg.max_interval { } else { ring[kept % window] = 2 * gap.as_secs() + 1; kept += 1; }
+            advance(gap);
+        }
+        w.report_heartbeat();
+        i += 1;
+    }
+    let mut expect_halves = 0u64;
+    let mut j = 0;
+    while j < window { if j < kept { expect_halves += ring[j]; } j += 1; }
+    kani::cover!(kept >= 1, "a sub-second-carrying interval was retained");
+    assert!(w.intervals.sum() * 2.0 == expect_halves as f64, "C10/C11: the windowed sum is not the sum of the retained intervals (sub-second part of an interval lost, or an evicted / dropped interval still counts)");
+    assert!(w.intervals.len() == if kept < window { kept } else { window }, "C10: window length differs from the number of usable intervals (capped at the window size)");
+    std::mem::forget(w);
+}
+
 /// Classification glue of FailureDetector::update_node_liveness over an arbitrary window: alive iff phi <= threshold,
 /// exactly one of live/dead afterwards, death instant kept, window cleared while dead, unknown member => dead.
 fn fd_classify(cfg_id: u8) {
